@@ -247,6 +247,43 @@ pub fn c12(opts: &Opts, out: &mut Out) {
             classes.insert((n, 100 + round, variant, 0));
         }
     }
+    // members of different aggregation over ONE parameter object (and its clones), in every order: the capacity is
+    // then larger than most members' aggregation, and the largest member is not necessarily first
+    for (n, cap, t) in [(2usize, 4usize, 1usize), (8, 8, 2), (4, 4, 3)] {
+        let shared = fmrun::params(n, cap, t);
+        let ms: Vec<usize> = [1usize, 2, 4, 8].iter().cloned().filter(|m| *m <= cap).collect();
+        let made: Vec<(fmrun::Inst, fmrun::Stmt, fmrun::Proof)> = ms
+            .iter()
+            .map(|m| {
+                let inst = fmrun::random_inst(n, *m, cap, t, 4 + m, false, &mut rng);
+                let c: Vec<FP> = inst.values.iter().zip(inst.blindings.iter()).map(|(v, r)| shared.pc_gens().commit(&curve25519_dalek::scalar::Scalar::from(*v), r).unwrap()).collect();
+                let stmt = tari_bulletproofs_plus::range_statement::RangeStatement::init(shared.clone(), c, inst.promises.clone(), None).unwrap();
+                let proof = fmrun::Proof::prove_with_rng(&mut inst.transcript(), &stmt, &inst.witness(), &mut rng).unwrap();
+                (inst, stmt, proof)
+            })
+            .collect();
+        let k = made.len();
+        let mut orders: Vec<Vec<usize>> = vec![(0..k).collect(), (0..k).rev().collect()];
+        for a in 0..k {
+            for b in 0..k {
+                if a != b {
+                    orders.push(vec![a, b]);
+                }
+            }
+        }
+        orders.push(vec![0, k - 1, 0]);
+        for order in orders {
+            for action in [VerifyAction::VerifyOnly, VerifyAction::RecoverAndVerify] {
+                let stmts: Vec<fmrun::Stmt> = order.iter().map(|i| made[*i].1.clone()).collect();
+                let proofs: Vec<fmrun::Proof> = order.iter().map(|i| made[*i].2.clone()).collect();
+                let mut ts: Vec<_> = order.iter().map(|i| made[*i].0.transcript()).collect();
+                let r = std::panic::catch_unwind(std::panic::AssertUnwindSafe(|| fmrun::Proof::verify_batch(&mut ts, &stmts, &proofs, action)));
+                let ok = matches!(r, Ok(Ok(_)));
+                out.oracle("C12:mixed-capacity-batch", ok, &format!("one shared parameter object n={} cap={} t={} aggregations {:?} action={:?}", n, cap, t, order.iter().map(|i| ms[*i]).collect::<Vec<_>>(), action), "a batch of valid proofs over one shared parameter object was refused (or panicked)");
+            }
+        }
+        classes.insert((n, 200, cap, t));
+    }
     out.stat("distinct_classes", classes.len());
-    out.case("every (c_p, c_v) in {m, 2m, 4m, 32}^2 for bits x aggregation; mixed-capacity batches of 8 members with own and rotated capacities".into());
+    out.case("every (c_p, c_v) in {m, 2m, 4m, 32}^2 for bits x aggregation; mixed-capacity batches of 8 members with own and rotated capacities; members of every aggregation over one shared parameter object in every order".into());
 }
